@@ -788,7 +788,13 @@ struct DropGuard(usize);
 
 impl Drop for DropGuard {
     fn drop(&mut self) {
-        log(format!("EV guarddrop {}", self.0));
+        // the destructor also reads the host's clock: crash / bounce run it outside any step, where the only
+        // meaningful reading is the virtual time of the step boundary (never the wall clock)
+        let t = match turmoil::sim_elapsed() {
+            Some(d) => d.as_nanos().to_string(),
+            None => "-".into(),
+        };
+        log(format!("EV guarddrop {} t={t}", self.0));
     }
 }
 
